@@ -1,5 +1,5 @@
 (* C11 -- Geometric operations are rigid motions with the documented effect.
-   Property theorems only (each is `exact <lemma>` from Proofs/Rot.v, Proofs/RotMotion.v, Proofs/RotEns.v or Proofs/RotSeq.v), over the real
+   Property theorems only (each is `exact <lemma>` from Proofs/Rot.v, Proofs/RotMotion.v, Proofs/RotEns.v, Proofs/RotSeq.v or Proofs/RotViews.v), over the real
    numbers, for the SAME Gallina definitions (Model/Rot.v, parametric in the field operations) that the
    correspondence shards execute over Q against the implementation.
 
@@ -11,7 +11,7 @@
    - arctan2 itself: "the dihedral is t" is stated as "(arg1, arg2) = rho (sin t, cos t) with rho > 0";
    - which atoms yield_bfs selects (graph search: C15) -- `sel` is a parameter, constrained by hypotheses. *)
 From Coq Require Import Reals Lra List ZArith Lia.
-From Molli Require Import Common.Field3 Common.Field3R Model.Rot Model.RotEns Model.RotSeq Proofs.Rot Proofs.RotMotion Proofs.RotEns Proofs.RotSeq.
+From Molli Require Import Common.Field3 Common.Field3R Model.Rot Model.RotEns Model.RotSeq Model.RotViews Proofs.Rot Proofs.RotMotion Proofs.RotEns Proofs.RotSeq Proofs.RotViews.
 Import ListNotations.
 Local Open Scope R_scope.
 
@@ -385,3 +385,93 @@ Proof.
   - f3. lra.
   - unfold dihedral_args. cbn [fst snd]. f3. lra.
 Qed.
+
+(* ---- handles collected first, used later (Model/RotViews.v) ------------------------------------------ *)
+(* A conformer obtained from the ensemble -- ens[k], the k-th object of `for cf in ens` / list(ens) / zip / sorted -- or a
+   substructure of it stands for conformer k for good.  Whatever else was fetched from the ensemble in the meantime, a
+   session of edits through such handles leaves conformer c as: the edits made through handles of c, in order -- and
+   a conformer none of whose handles was used exactly as it was. *)
+Theorem C11_view_edits_per_conformer (edits : list (nat * (list vecR -> list vecR))) (E : list (list vecR)) (c : nat) :
+  (c < length E)%nat ->
+  length (view_edits edits E) = length E /\
+  nth c (view_edits edits E) [] = fold_left (fun X f => f X) (edits_on c edits) (nth c E []).
+Proof. exact (view_edits_per_conformer edits E c). Qed.
+Print Assumptions C11_view_edits_per_conformer.
+
+Theorem C11_view_edits_untouched (edits : list (nat * (list vecR -> list vecR))) (E : list (list vecR)) (c : nat) :
+  (c < length E)%nat -> (forall e, In e edits -> fst e <> c) -> nth c (view_edits edits E) [] = nth c E [].
+Proof. exact (view_edits_untouched edits E c). Qed.
+Print Assumptions C11_view_edits_untouched.
+
+(* translate / transform through the handle of conformer k (itself, or substructure(idx) of it): the selected rows of
+   conformer k move rigidly, its other rows and every other conformer do not move *)
+Theorem C11_view_translate (k : nat) (idx : option (list nat)) (v : vecR) (E : list (list vecR)) :
+  (k < length E)%nat ->
+  let sel i := match idx with None => true | Some l => in_idx l i end in
+  let E' := view_translate ROps k idx v E in
+  length E' = length E /\
+  (forall c, (c < length E)%nat -> c <> k -> nth c E' [] = nth c E []) /\
+  same_shape_on (fun i => sel i = true) (nth k E []) (nth k E' []) /\
+  (forall i, sel i = false -> pt (nth k E' []) i = pt (nth k E []) i).
+Proof. exact (view_translate_effect k idx v E). Qed.
+Theorem C11_view_transform (k : nat) (idx : option (list nat)) (M : matR) (E : list (list vecR)) :
+  proper M -> (k < length E)%nat ->
+  let sel i := match idx with None => true | Some l => in_idx l i end in
+  let E' := view_transform ROps k idx M E in
+  length E' = length E /\
+  (forall c, (c < length E)%nat -> c <> k -> nth c E' [] = nth c E []) /\
+  same_shape_on (fun i => sel i = true) (nth k E []) (nth k E' []) /\
+  (forall i, sel i = false -> pt (nth k E' []) i = pt (nth k E []) i).
+Proof. exact (view_transform_effect k idx M E). Qed.
+Print Assumptions C11_view_transform.
+
+(* ---- arguments that are live rows of the coordinate table -------------------------------------------- *)
+(* R = rotation_matrix_from_vectors(coords[k], w); transform(R):  computing R leaves the table as it was (the callee gets
+   the VALUE of the row); afterwards every distance and signed volume is unchanged and atom k points along w *)
+Theorem C11_orient_row (tol : R) (X : list vecR) (k : nat) (w ov : vecR) (nk nw : R) :
+  0 <= tol < 1 -> (k < length X)%nat ->
+  0 < nk -> nk * nk = norm2 ROps (pt X k) -> 0 < nw -> nw * nw = norm2 ROps w ->
+  unit ov -> dot ROps ov w = 0 ->
+  let r := orient_row ROps tol X k false w nk nw ov in
+  fst r = X /\ same_shape X (snd r) /\ vdiv ROps (pt (snd r) k) nk = vdiv ROps w nw.
+Proof. exact (orient_row_correct tol X k w ov nk nw). Qed.
+Print Assumptions C11_orient_row.
+
+Theorem C11_orient_row_as_target (tol : R) (X : list vecR) (k : nat) (w ov : vecR) (nk nw : R) :
+  0 <= tol < 1 -> (k < length X)%nat ->
+  0 < nk -> nk * nk = norm2 ROps (pt X k) -> 0 < nw -> nw * nw = norm2 ROps w ->
+  unit ov -> dot ROps ov (pt X k) = 0 ->
+  let r := orient_row ROps tol X k true w nk nw ov in
+  fst r = X /\ same_shape X (snd r) /\
+  vm ROps (vdiv ROps w nw) (row_matrix_vec ROps tol X k true w nk nw ov) = vdiv ROps (pt X k) nk.
+Proof. exact (orient_row_swapped_correct tol X k w ov nk nw). Qed.
+Print Assumptions C11_orient_row_as_target.
+
+(* R = rotation_matrix_from_axis(coords[k], t); transform(R): table untouched by computing R, shape kept, atom k fixed *)
+Theorem C11_turn_about_row (X : list vecR) (k : nat) (nk s c : R) :
+  (k < length X)%nat -> 0 < nk -> nk * nk = norm2 ROps (pt X k) -> s * s + c * c = 1 ->
+  let r := turn_about_row ROps X k nk s c in
+  fst r = X /\ same_shape X (snd r) /\ pt (snd r) k = pt X k.
+Proof. exact (turn_about_row_correct X k nk s c). Qed.
+Print Assumptions C11_turn_about_row.
+
+(* translate(coords[k]): every selected row moves by the value row k had before the call *)
+Theorem C11_shift_by_row (idx : option (list nat)) (X : list vecR) (k : nat) :
+  let sel i := match idx with None => true | Some l => in_idx l i end in
+  let X' := shift_by_row ROps idx X k in
+  length X' = length X /\
+  forall i, (i < length X)%nat -> pt X' i = if sel i then vadd ROps (pt X i) (pt X k) else pt X i.
+Proof. exact (shift_by_row_correct idx X k). Qed.
+Print Assumptions C11_shift_by_row.
+
+(* hypotheses satisfiable: two conformers, handles used in the order 1, 0, 1; atom 1 of a 2-atom table put along z *)
+Example C11_ex_views :
+  let E := [[(0, 0, 0); (1, 0, 0)]; [(0, 0, 0); (0, 1, 0)]] : list (list vecR) in
+  let edits := [(1%nat, translate ROps (1, 1, 1)); (0%nat, translate ROps (2, 0, 0)); (1%nat, translate ROps (0, 0, 1))] in
+  (0 < length E)%nat /\ (1 < length E)%nat /\ (length (edits_on 1 edits) = 2)%nat /\ (length (edits_on 0 edits) = 1)%nat.
+Proof. cbv zeta. cbn. repeat split; lia. Qed.
+Example C11_ex_orient_row :
+  let X := [(0, 0, 0); (3, 0, 4)] : list vecR in
+  0 <= 0 < 1 /\ (1 < length X)%nat /\ 0 < 5 /\ 5 * 5 = norm2 ROps (pt X 1) /\ 0 < 2 /\ 2 * 2 = norm2 ROps (0, 0, 2) /\
+  unit (1, 0, 0) /\ dot ROps (1, 0, 0) (0, 0, 2) = 0.
+Proof. cbv zeta. unfold unit, pt. cbn [nth length]. f3. repeat split; try lra; try lia. Qed.
